@@ -3,7 +3,7 @@ import re
 import collections
 
 from .engine import Res
-from .facts import callee_name, callee_path, callee_resolved, AnchorMissing, _last, _strip_generics, is_result_ty
+from .facts import callee_name, callee_path, callee_resolved, AnchorMissing, _last, _strip_generics, is_result_ty, module_private
 from .origins import Origins
 from .guards import GuardExtractor, guards_of
 
@@ -826,7 +826,7 @@ def field_discipline(P, adt_short, field, allowed_methods):
 
 
 # ------------------------------------------------------------------------------ variant-arm wiring
-def arm_wiring(P, fn_qual, enum_short, expect, what='call', call_rx=None, arg=0):
+def arm_wiring(P, fn_qual, enum_short, expect, what='call', call_rx=None, arg=0, _depth=0):
     """for the `match` on a value of enum `enum_short` in F: in the arm of variant V the first matching call
     (or aggregate) has an origin matching expect[V]"""
     fn = P.fn(fn_qual)
@@ -882,6 +882,19 @@ def arm_wiring(P, fn_qual, enum_short, expect, what='call', call_rx=None, arg=0)
             if got is None or not re.search(rx, got):
                 r.bad('arm-wiring:' + vname, 'in `%s` the %s arm of the match on %s uses `%s`, expected /%s/'
                       % (fn['qual'], vname, enum_short, got, rx), where=[b['ln']])
+    if not found and _depth < 1:
+        # the match may have been extracted into a module-private helper of the same crate that F calls
+        for bi, t in body.calls():
+            h = P.fns.get(callee_resolved(t)) or P.fns.get(callee_path(t))
+            if h is None or h is fn or not module_private(h):
+                continue
+            try:
+                hr = arm_wiring(P, h['key'], enum_short, expect, what, call_rx, arg, _depth + 1)
+            except AnchorMissing:
+                continue
+            if hr.sites:
+                hr.sites = ['%s -> helper %s' % (fn['qual'], x) for x in hr.sites]
+                return hr
     if not found:
         raise AnchorMissing('`%s` has no match on a value of type %s' % (fn_qual, enum_short))
     return r
@@ -1537,16 +1550,6 @@ def _variant_tests(P, files):
 
 STD_MUTATORS = re.compile(r'^(Vec|VecDeque|HashMap|BTreeMap|HashSet|BTreeSet|SmallMap|LargeMap|Option|\[T\])::'
                           r'(resize|truncate|clear|push|push_back|pop_front|pop|insert|remove|remove_entry|retain|extend|take|replace|sort|dedup|drain)$')
-
-
-def module_private(fn):
-    """visible only inside its own module (or a parent module below the crate root): the kind of helper that is introduced,
-    renamed, inlined and split freely"""
-    v = fn.get('vis') or ''
-    if not v.startswith('Restricted('):
-        return False
-    m = re.search(r'~ (\w+)\[[0-9a-f]+\](.*?)\)\)$', v)
-    return bool(m and m.group(2))       # `Restricted(crate root)` = pub(crate) is not private
 
 
 def mustpass_inventory(P, files):
